@@ -133,11 +133,11 @@ Definition save_pdb (level : Z) (f : pdbfile) : text :=
       flat_map (fun cd : chain * dbref =>
         let '(ch, d) := cd in
         flat_map (fun dif : seqdiff =>
-          let '(rn, num, _) := sd_res dif in
+          let '(rn, num, ins) := sd_res dif in
           pl [(6%nat, S_ "SEQADV"); (0%nat, sp 1); (4%nat, idt); (0%nat, sp 1); (3%nat, rn); (0%nat, sp 1); (1%nat, ch_id ch); (0%nat, sp 1);
-              (4%nat, show_int num); (0%nat, sp 2); (4%nat, db_name d); (0%nat, sp 1); (9%nat, db_acc d); (0%nat, sp 1);
+              (4%nat, show_int num); (1%nat, otext_or (sp 1) ins); (0%nat, sp 1); (4%nat, db_name d); (0%nat, sp 1); (9%nat, db_acc d); (0%nat, sp 1);
               (3%nat, match sd_db dif with Some x => fst x | None => [] end); (0%nat, sp 1);
-              (5%nat, show_int (match sd_db dif with Some x => snd x | None => 0 end)); (0%nat, sp 1); (0%nat, sd_comment dif)]) (db_diffs d)) with_db ++
+              (5%nat, match sd_db dif with Some x => show_int (snd x) | None => [] end); (0%nat, sp 1); (0%nat, sd_comment dif)]) (db_diffs d)) with_db ++
       (if seqres then
          flat_map (fun jc : nat * chain =>
            let ch := snd jc in
@@ -190,7 +190,7 @@ Definition save_pdb (level : Z) (f : pdbfile) : text :=
        pl [(0%nat, (S_ "MTRIX" ++ show_Z (Z.of_nat r + 1))%list); (0%nat, sp 1); (3%nat, show_int ser);
            (10%nat, fixed 10 6 (g (r * 4)%nat)); (10%nat, fixed 10 6 (g (r * 4 + 1)%nat)); (10%nat, fixed 10 6 (g (r * 4 + 2)%nat));
            (0%nat, sp 5); (10%nat, fixed 10 5 (g (r * 4 + 3)%nat)); (0%nat, sp 4); (0%nat, if given then S_ "1" else sp 1)]) [0; 1; 2]%nat) (pf_mtrix f) ++
-   (let multiple := Nat.ltb 1 (List.length (pf_models f)) in
+   (let multiple := (Nat.ltb 1 (List.length (pf_models f)) || match pf_models f with m :: _ => negb (m_serial m =? 0) | [] => false end)%bool in
     flat_map (fun m : model =>
       ((if multiple then pl [(0%nat, S_ "MODEL        "); (0%nat, show_int (m_serial m))] else []) ++
        flat_map (chain_lines level) (filter (fun ch => negb (is_nil (ch_atoms ch))) (m_chains m)) ++
